@@ -210,6 +210,40 @@ def fam_edge_templates():
     return out
 
 
+def op_diff_alg(fp, name='cpl', out='z', a='qs', b='qt', gain='gn'):
+    """z = gn*(qs - qt*qt)   (algebraic edge operator with a source-side and a target-side input)"""
+    e = X.mul(V(gain), X.sub(V(a), X.mul(V(b), V(b))))
+    return OpSpec(name, [(out, 'alg', e)], {out: ('alg', F(0)), a: ('input', fp()), b: ('input', fp()),
+                                            gain: ('const', fp())}, output=out)
+
+
+def fam_edge_inputs():
+    """edge operators with a second input read from a node variable (string-valued edge attribute), flat and inside
+    sub-circuits of a hierarchy (where collect_edges has to prefix the path with the sub-circuit scope)"""
+    out = []
+    for depth in (0, 1, 2):
+        for variant in range(2):
+            fp = FP()
+            ops = {'li': op_leaky(fp), 'o1': op_two_inputs(fp), 'cpl': op_diff_alg(fp)}
+            pre = [''] if depth == 0 else (['c0/', 'c1/'] if depth == 1 else ['g0/c0/', 'g0/c1/', 'g1/c0/'])
+            nodes, edges = {}, []
+            for p in pre:
+                nodes[f"{p}a"] = NodeSpec(['li'], _node_overrides(fp, ops, ['li']))
+                nodes[f"{p}b"] = NodeSpec(['o1'], _node_overrides(fp, ops, ['o1']))
+                edges.append(EdgeSpec(f"{p}a/li/x", f"{p}b/o1/u", fp(), template='ei', edge_overrides={'cpl/gn': fp()},
+                                      var_map={'qs': 'source', 'qt': f"{p}b/o1/x"}))
+                if variant:
+                    edges.append(EdgeSpec(f"{p}b/o1/x", f"{p}a/li/u", fp(), template='ei',
+                                          var_map={'qs': 'source', 'qt': f"{p}a/li/x"}))
+            if depth:
+                edges.append(EdgeSpec(f"{pre[0]}b/o1/x", f"{pre[1]}b/o1/w", fp(), template='ei',
+                                      var_map={'qs': 'source', 'qt': f"{pre[1]}a/li/x"}))
+            out.append((f"FEI:{depth}:{variant}", ModelSpec('top' if depth else 'm', ops, nodes, edges,
+                                                           {'ei': EdgeTplSpec('ei', ['cpl'])},
+                                                           note=f"edge operator with a target-side input, depth {depth}")))
+    return out
+
+
 def fam_equal_values():
     """nodes sharing one NodeTemplate object / all-equal parameter values (constant-vector collapse path)"""
     out = []
